@@ -1,8 +1,8 @@
 package worlds
 
 import (
-	"context"
 	"bytes"
+	"context"
 	"errors"
 	"fmt"
 	"io"
@@ -33,40 +33,41 @@ type c6Chain struct {
 	level    zerolog.Level
 	ops      []fop
 	fin      int
-	entry    int // 0: an Event built field by field; 1..: Print, Printf, Println, Write, Err(...).Msg and the package-level helpers
+	entry    int       // 0: an Event built field by field; 1..: Print, Printf, Println, Write, Err(...).Msg and the package-level helpers
 	exp      [2][]byte // expected bytes per sink (nil = no write)
 	expLevel zerolog.Level
 	got      [2]int
 	fseq     int
 	optional bool
-	failOn   int // sink index that returns an error for this event, -1 none
-	shortOn  int // sink index that accepts fewer bytes (nil error) for this event, -1 none
-	panicOn  int // sink index whose Write panics for this event (the logging goroutine recovers), -1 none
-	derive   int // 0 none; the task derives a child logger first: 1 With().Str, 2 Hook, 3 Level(Trace), 4 Output(same destination), 5 child attached to a context derived from the shared one
+	failOn   int  // sink index that returns an error for this event, -1 none
+	shortOn  int  // sink index that accepts fewer bytes (nil error) for this event, -1 none
+	panicOn  int  // sink index whose Write panics for this event (the logging goroutine recovers), -1 none
+	derive   int  // 0 none; the task derives a child logger first: 1 With().Str, 2 Hook, 3 Level(Trace), 4 Output(same destination), 5 child attached to a context derived from the shared one
 	viaCtx   bool // the logger is taken out of a context.Context shared by the tasks (zerolog.Ctx)
-	sampler  int // index of the shared BasicSampler its logger goes through, -1 none
+	sampler  int  // index of the shared BasicSampler its logger goes through, -1 none
 	gatePass bool
+	inflight bool
 }
 
 type c6Run struct {
-	ch       *zsim.Choices
-	dest     int
-	sinks    [2]*c6Sink
-	loggers  []zerolog.Logger
-	chains   [][]*c6Chain
-	cur      map[int]*c6Chain // task id -> chain being finalized
-	solo     *c6Chain
-	synced   bool
-	errCalls int
-	flips    bool
-	nTasks   int
-	lastSeq  map[[2]int]int
-	sinkBeh  int
+	ch        *zsim.Choices
+	dest      int
+	sinks     [2]*c6Sink
+	loggers   []zerolog.Logger
+	chains    [][]*c6Chain
+	cur       map[int]*c6Chain // task id -> chain being finalized
+	solo      *c6Chain
+	synced    bool
+	errCalls  int
+	flips     bool
+	nTasks    int
+	lastSeq   map[[2]int]int
+	sinkBeh   int
 	extraDest io.Writer
 	curDest   io.Writer
 	samplers  []*c6CountSampler
 	samplerN  []uint32
-	samplerOf []int // per logger index: sampler index or -1
+	samplerOf []int             // per logger index: sampler index or -1
 	ctxs      []context.Context // per logger index: a context carrying it, shared by the tasks
 }
 
@@ -111,9 +112,9 @@ func (s *c6Sink) write(l zerolog.Level, hasLevel bool, p []byte) (int, error) {
 			zsim.Fail("C06.sync_overlap", "two overlapping calls reached a writer wrapped in SyncWriter (sink %d)", s.idx)
 		}
 	}
-	c := r.cur[zsim.CurID()]
+	c := r.attribute(s.idx, p)
 	if c == nil {
-		zsim.Fail("C06.count", "sink %d received a write while task %d is not finalizing any event: %s", s.idx, zsim.CurID(), clip(p, 80))
+		zsim.Fail("C06.count", "sink %d received a write that belongs to no event being finalized (calling task %d): %s", s.idx, zsim.CurID(), clip(p, 80))
 	}
 	if c.exp[s.idx] == nil {
 		zsim.Fail("C06.count", "event %s is filtered when run alone but was written to sink %d: %s", c.id, s.idx, clip(p, 80))
@@ -169,6 +170,37 @@ func (s *c6Sink) write(l zerolog.Level, hasLevel bool, p []byte) (int, error) {
 		return len(p) / 2, nil
 	}
 	return len(p), nil
+}
+
+// attribute finds the event a write belongs to. Which goroutine carries an event to the
+// destination is not promised (a writer may delegate to a helper or to another caller),
+// so the content decides first: an event being finalized right now whose bytes, run
+// alone, are exactly these and which this sink has not seen yet. Otherwise the event
+// the calling task is finalizing (the comparison that follows then reports the
+// difference), otherwise the one being finalized whose id the bytes carry.
+func (r *c6Run) attribute(idx int, p []byte) *c6Chain {
+	for _, cs := range r.chains {
+		for _, c := range cs {
+			if c.inflight && c.got[idx] == 0 && c.exp[idx] != nil && bytes.Equal(p, c.exp[idx]) {
+				return c
+			}
+		}
+	}
+	if c := r.cur[zsim.CurID()]; c != nil {
+		return c
+	}
+	var found *c6Chain
+	for _, cs := range r.chains {
+		for _, c := range cs {
+			if c.inflight && bytes.Contains(p, []byte(c.id)) {
+				if found != nil {
+					return nil
+				}
+				found = c
+			}
+		}
+	}
+	return found
 }
 
 // Close makes the sinks io.Closers: under SyncWriter a Close may not overlap a Write.
@@ -338,6 +370,7 @@ func (r *c6Run) start(c *c6Chain) *zerolog.Event {
 func (r *c6Run) finalize(c *c6Chain, e *zerolog.Event, seq int) {
 	c.fseq = seq
 	r.cur[zsim.CurID()] = c
+	c.inflight = true
 	switch c.fin {
 	case 0:
 		e.Msg("m:" + c.id)
@@ -349,6 +382,7 @@ func (r *c6Run) finalize(c *c6Chain, e *zerolog.Event, seq int) {
 		e.MsgFunc(func() string { zsim.Yield("MsgFunc"); return "f:" + c.id })
 	}
 	delete(r.cur, zsim.CurID())
+	c.inflight = false
 }
 
 func (r *c6Run) runChain(c *c6Chain, seq int) {
@@ -359,6 +393,7 @@ func (r *c6Run) runChain(c *c6Chain, seq int) {
 					panic(p)
 				}
 				delete(r.cur, zsim.CurID())
+				c.inflight = false
 			}
 		}()
 	}
@@ -376,7 +411,8 @@ func (r *c6Run) runChain(c *c6Chain, seq int) {
 func (r *c6Run) runEntry(c *c6Chain, seq int) {
 	c.fseq = seq
 	r.cur[zsim.CurID()] = c
-	defer delete(r.cur, zsim.CurID())
+	c.inflight = true
+	defer func() { delete(r.cur, zsim.CurID()); c.inflight = false }()
 	global := c.logger == len(r.loggers)
 	var lg zerolog.Logger
 	if !global {
